@@ -8,4 +8,5 @@ let table : (string * (Model.n list -> Model.n list)) list = [
   ("node", Model.run_node);
   ("pelection", Model.run_pelection);
   ("plog", Model.run_plog);
+  ("pread", Model.run_pread);
 ]
